@@ -14,14 +14,21 @@
 (*              dynamic jumps to 0, odd, beyond the table, the halt address;        *)
 (*  table     - jump tables with z in {0..9, 255} and entry counts that overflow;   *)
 (*  loop      - programs that must run out of gas (self jump, host-call loop);      *)
-(*  sbrk      - small heap growth (bulk) and one 32 MiB request (finding re-check).  *)
+(*  haltrange - programs that HALT with chosen result-range registers: w7 in zero,  *)
+(*              argument zone, RW data, last mapped byte, unmapped, 2^32-1, 2^32,   *)
+(*              2^63; w8 in 0, 1, 4096, page-crossing, 2^24, 2^28, 2^32-1, 2^32,    *)
+(*              2^63, 2^64-1.  The output is the range if readable, else empty.     *)
+(*  len also holds lengths consistent only modulo 2^64: |c| + ceil(|c|/8) and       *)
+(*  |j| x z wrapping to exactly the bytes present.                                  *)
 (* The check script adds seeded bit flips of the `valid` blobs.                      *)
 (* Case: [tag, kind ("std" | "inner"), blob, al (argument length), gas, pc].        *)
 EXTENDS ProgramBlob, Json, TLC, SequencesExt
 CONSTANTS OutFile, Tier
 VARIABLE x
 
-Case(tag, kind, blob, al, gas, pc) == [tag |-> tag, kind |-> kind, blob |-> blob, al |-> al, gas |-> gas, pc |-> pc]
+\* want: expected length of Psi_M's output where the grammar class fixes it (halt class), -1 otherwise
+CaseW(tag, kind, blob, al, gas, pc, want) == [tag |-> tag, kind |-> kind, blob |-> blob, al |-> al, gas |-> gas, pc |-> pc, want |-> want]
+Case(tag, kind, blob, al, gas, pc) == CaseW(tag, kind, blob, al, gas, pc, -1)
 Gases == {0, 1, 9, 10000}
 
 \* ---------------------------------------------------------------- valid programs
@@ -83,6 +90,25 @@ LenInner ==
   \cup {InnerRaw(jf, zf, cf, <<>>, <<>>, <<>>) : jf \in {ENat(0), ENat(1), EncNat(<<0, 0, 0, 128, 0, 0, 0, 0>>), EncNat(<<0, 0, 0, 0, 0, 0, 0, 128>>), EncNat(<<1, 0, 0, 128, 0, 0, 0, 0>>), EncNat(<<0, 0, 0, 0, 1, 0, 0, 0>>)},
                                               zf \in {0, 1, 2, 4, 8, 255}, cf \in {ENat(0), ENat(1), EncNat(<<255, 255, 255, 255, 255, 255, 255, 255>>)}}
 
+\* declared lengths that are consistent only modulo 2^64:
+\*  |c| + ceil(|c|/8) = 2^64 + L for L bytes following the |c| field (2^64 = 9Q + 7, Q = 2049638230412172401):
+\*  with T = 7 + L, |c| = 8(Q + T \div 9) + r where r + [r > 0] = T % 9 (no solution when T % 9 = 1)
+RECURSIVE AddSmall(_, _)
+AddSmall(v, d) == IF v = <<>> THEN <<>> ELSE <<(Head(v) + d) % 256>> \o AddSmall(Tail(v), (Head(v) + d) \div 256)
+WrapBase == <<142, 227, 56, 142, 227, 56, 142, 227>>           \* 8Q + 6 = 0xE38E38E38E38E38E
+HasWrapC(L) == ((7 + L) % 9) # 1
+WrapC(L) == LET T == 7 + L
+                r == IF (T % 9) = 0 THEN 0 ELSE (T % 9) - 1
+            IN <<255>> \o AddSmall(WrapBase, 8 * (T \div 9) + r - 6)
+WrapTails == {<<>>, <<0>>, <<0, 1>>, <<1, 2, 3, 4>>, BCode \o BMask, BCode \o BMask \o <<0>>, Zeros(16), Rep(255, 17), Zeros(40)}
+\*  |j| * z = 2^64 + (table bytes present)
+WrapJ == {<<2, <<1, 0, 0, 0, 0, 0, 0, 128>>, 2>>, <<4, <<1, 0, 0, 0, 0, 0, 0, 64>>, 4>>, <<8, <<1, 0, 0, 0, 0, 0, 0, 32>>, 8>>,
+          <<255, <<255, 254, 254, 254, 254, 254, 254, 254>>, 1>>, <<2, <<0, 0, 0, 0, 0, 0, 0, 128>>, 0>>, <<16, <<1, 0, 0, 0, 0, 0, 0, 16>>, 16>>}
+LenWrap == {InnerRaw(ENat(0), 0, WrapC(Len(t)), <<>>, t, <<>>) : t \in {t \in WrapTails : HasWrapC(Len(t))}}
+           \cup {InnerRaw(ENat(1), 1, WrapC(Len(t)), <<0>>, t, <<>>) : t \in {t \in WrapTails : HasWrapC(Len(t))}}
+           \cup {InnerRaw(<<255>> \o w[2], w[1], ENat(NC), Zeros(w[3]), BCode, BMask) : w \in WrapJ}
+           \cup {InnerRaw(<<255>> \o w[2], w[1], ENat(0), Zeros(w[3]), <<>>, <<>>) : w \in WrapJ}
+
 \* standard header fields: each of |o|, |w|, z, s, |c| in its classes around a consistent blob
 SO == <<1, 2, 3>>
 SW == <<4, 5>>
@@ -99,8 +125,8 @@ LenStd ==
   \cup {StdRaw(LE(3, 3), LE(2, 3), LE(65535, 2), LE(16777215, 3), SO, SW, LE(Len(SIn), 4), SIn)}
   \cup {StdRaw(LE(0, 3), LE(0, 3), LE(0, 2), LE(0, 3), <<>>, <<>>, LE(0, 4), <<>>)}
 
-LenCases == {Case("len", "inner", b, 0, 100, 0) : b \in LenInner}
-            \cup {Case("len", "std", StdWrap(b), 0, 100, 0) : b \in LenInner}
+LenCases == {Case("len", "inner", b, 0, 100, 0) : b \in LenInner \cup LenWrap}
+            \cup {Case("len", "std", StdWrap(b), 0, 100, 0) : b \in LenInner \cup LenWrap}
             \cup {Case("len", "std", b, al, 100, 0) : b \in LenStd, al \in {0, 4096}}
 
 \* ---------------------------------------------------------------- truncation / trailing
@@ -198,13 +224,42 @@ SbrkBig == {InnerProg(<<>>, 0, <<LoadImm4(2, <<0, 0, 0, 2>>), Sbrk(3, 2), JumpIn
 SbrkCases == {Case("sbrk", "std", StdWrap(b), 0, 100, 0) : b \in SbrkSmall} \cup {Case("sbrkbig", "std", StdWrap(b), 0, 100, 0) : b \in SbrkBig}
              \cup {Case("sbrk", "inner", b, 0, 100, 0) : b \in SbrkSmall}
 
-Cases == ValidCases \cup LenCases \cup TruncCases \cup MaskCases \cup CutCases \cup TargetCases \cup LoopCases \cup SbrkCases
+\* ---------------------------------------------------------------- halting programs x result range
+\* load_imm_64 a0, w7 ; load_imm_64 a1, w8 ; jump_ind ra, 0 : halts under Y's registers with the result range
+\* [w7, w7 + w8).  Psi_M's output (A.8 R) is that range if every page of it is readable, else empty.
+\* Standard program: no RO data, 2 bytes of RW data, z = 1, s = 4096, 5 argument bytes.
+\* value record: 8 LE bytes, page/off (-1 when >= 2^32), n (-1 when >= 2^31)
+V8(b8, page, off) == [b8 |-> b8, page |-> page, off |-> off]
+HaltW7 == {V8(Zeros(8), 0, 0),
+           V8(<<0, 0, 255, 254, 0, 0, 0, 0>>, ArgStartPage, 0),            \* the argument zone
+           V8(<<0, 0, 2, 0, 0, 0, 0, 0>>, 32, 0),                          \* RW data
+           V8(<<255, 31, 2, 0, 0, 0, 0, 0>>, 33, 4095),                    \* last byte of the last heap page
+           V8(<<0, 0, 3, 0, 0, 0, 0, 0>>, 48, 0),                          \* unmapped
+           V8(<<255, 255, 255, 255, 0, 0, 0, 0>>, TopPage - 1, 4095),      \* 2^32 - 1
+           V8(<<0, 0, 0, 0, 1, 0, 0, 0>>, -1, 0),                          \* 2^32
+           V8(<<0, 0, 0, 0, 0, 0, 0, 128>>, -1, 0)}                        \* 2^63
+N8(b8, n) == [b8 |-> b8, n |-> n]
+HaltW8 == {N8(Zeros(8), 0), N8(Nat8(1), 1), N8(Nat8(4096), 4096), N8(Nat8(8193), 8193), N8(Nat8(16777216), 16777216),
+           N8(Nat8(268435456), 268435456), N8(<<255, 255, 255, 255, 0, 0, 0, 0>>, -1), N8(<<0, 0, 0, 0, 1, 0, 0, 0>>, -1),
+           N8(<<0, 0, 0, 0, 0, 0, 0, 128>>, -1), N8(Rep(255, 8), -1)}
+HaltRegions == Regions(0, 2, 1, 4096, 5)
+\* a contiguous readable range lies inside one region (regions are separated by unmapped zones)
+HaltReadable(a, m) == m.n = 0 \/ (a.page >= 0 /\ m.n > 0 /\
+   \E i \in 1..4 : HaltRegions[i].start <= a.page /\ a.page + (a.off + m.n - 1) \div ZP < REnd(HaltRegions[i]))
+HaltInner(a, m) == InnerProg(<<>>, 0, <<LoadImm64(7, a.b8), LoadImm64(8, m.b8), JumpInd(0, 0)>>)
+HaltCases == {CaseW("haltrange", "std", StdOf(<<>>, <<4, 5>>, 1, 4096, HaltInner(a, m)), 5, 100, 0, IF HaltReadable(a, m) THEN m.n ELSE 0)
+                : a \in HaltW7, m \in HaltW8}
+
+Cases == ValidCases \cup HaltCases \cup LenCases \cup TruncCases \cup MaskCases \cup CutCases \cup TargetCases \cup LoopCases \cup SbrkCases
 
 \* generator self-checks (a failure here is a generator problem, not a verdict)
 ASSUME \A b \in ValidInner : InnerParse(b).class = "wellformed"
 ASSUME \A b \in ValidInner : StdClass(StdWrap(b), 0).class = "wellformed"
 ASSUME \A b \in ProperPrefixes(TruncBase) : InnerParse(b).class = "malformed"
 ASSUME \A b \in CutInner : InnerParse(b).class = "wellformed"
+ASSUME \A b \in LenWrap : InnerParse(b).class = "malformed"
+ASSUME \A c \in HaltCases : StdClass(c.blob, 5).class = "wellformed"
+ASSUME Cardinality({c \in HaltCases : c.want > 0}) = 5
 ASSUME \A b \in ProperPrefixes(TruncStdBase) \cup Trailing(TruncStdBase) : StdClass(b, 0).class = "malformed"
 
 ASSUME ndJsonSerialize(OutFile, SetToSeq(Cases))
